@@ -188,6 +188,47 @@ pub fn dbgerr(ws: &[&str]) -> String {
             }
         }
     }
+    // a token response whose application-defined extension type holds library secret types itself (an id token kept as an
+    // AccessToken, a list of RefreshTokens): formatted, it reveals none of them
+    #[derive(Debug, Clone, serde::Serialize, serde::Deserialize)]
+    struct SecretExt {
+        id_token: Option<AccessToken>,
+        more: Option<Vec<RefreshToken>>,
+        pair: Option<(String, RefreshToken)>,
+    }
+    impl ExtraTokenFields for SecretExt {}
+    let doc = serde_json::json!({"access_token": secs[0], "token_type": "bearer", "refresh_token": secs[1], "id_token": secs[2], "more": [secs[3], secs[0]], "pair": ["public", secs[1]]});
+    match serde_json::from_value::<StandardTokenResponse<SecretExt, BasicTokenType>>(doc) {
+        Ok(t) => {
+            if ws[0] == "1" {
+                out.push_str(&format!("{:#?}\n{:#?}\n", t, Some(vec![t.clone()])));
+            } else {
+                out.push_str(&format!("{:?}\n{:?}\n", t, Some(vec![t.clone()])));
+            }
+        }
+        Err(_) => out.push_str("secret-ext-rejected\n"),
+    }
+    // what a secret feeds to an application's Hasher (timing-resistant feature): nothing recognisable of its contents
+    {
+        struct Recording(Vec<u8>);
+        impl std::hash::Hasher for Recording {
+            fn finish(&self) -> u64 {
+                0
+            }
+            fn write(&mut self, b: &[u8]) {
+                self.0.extend_from_slice(b);
+            }
+        }
+        use std::hash::Hash;
+        let mut rec = Recording(vec![]);
+        ClientSecret::new(secs[0].clone()).hash(&mut rec);
+        AccessToken::new(secs[1].clone()).hash(&mut rec);
+        Some(vec![(RefreshToken::new(secs[2].clone()), 1u8)]).hash(&mut rec);
+        UserCode::new(secs[3].clone()).hash(&mut rec);
+        out.push_str("hasher-input: ");
+        out.push_str(&String::from_utf8_lossy(&rec.0));
+        out.push('\n');
+    }
     // the errors the library makes up itself at the end of a device-flow poll (deadline passed; access denied), blocking and
     // future-based, from a response holding the device code and the user code
     let details: Result<StandardDeviceAuthorizationResponse, _> = serde_json::from_value(serde_json::json!({
